@@ -439,6 +439,26 @@ def select__predicate(self: XPathToken, context: ta.ContextType = None) -> Itera
             yield context.item
 
 
+@method('[')
+def select_with_focus__predicate(self: XPathToken, context: ta.ContextType) -> Iterator[ta.ItemType]:
+    step = self[0]
+    while step.symbol == '[':
+        step = step[0]
+    if not getattr(step, 'reverse_axis', False):
+        yield from XPathToken.select_with_focus(self, context)
+        return
+
+    # Further predicates of a reverse axis step: proximity positions still count backwards
+    status = context.item, context.size, context.position, context.axis
+    results = [x for x in self.select(context)]
+    context.axis = None
+    context.size = context.position = len(results)
+    for context.item in results:
+        yield context.item
+        context.position -= 1
+    context.item, context.size, context.position, context.axis = status
+
+
 ###
 # Parenthesized expressions
 @method('(', bp=100)
